@@ -277,23 +277,14 @@ def expand(hist):
 
 
 def replay(case):
+    """re-executes the last transition of the recorded history exactly as the explorer did (both clone modes)"""
     global _U, _TIER
     _U, _TIER = case["U"], case.get("tier", "thorough")
     hist = case["hist"]
-    gl, ref = build(hist[:-1]) if len(hist) > 1 else (None, None)
-    viol = []
     if len(hist) == 1:
-        gl, ref = build(hist)
-        errs = check(gl, ref, _U)
+        viol = expand_or_init(hist)["violations"]
     else:
-        ev = hist[-1]
-        try:
-            g2 = apply_real(gl, ev)
-            errs = check(g2, apply_ref(ref, ev), _U)
-        except Exception as exc:
-            errs = [f"raised {type(exc).__name__}: {str(exc)[:80]}"]
-    if errs:
-        viol.append({"what": f"{hist[-1][0]}: {errs[0]}", "errors": errs})
+        viol = [v for v in expand(hist[:-1])["violations"] if v["hist"] == hist]
     return {"outcome": "violation" if viol else "ok", "violations": viol}
 
 
